@@ -76,9 +76,9 @@ def main(ctx):
     hs += [gen_history(ctx.rng, 22, indexable=True, invalid_rate=0.01, mem_rate=0.2) for _ in range(ctx.scale(quick=90, thorough=3500))]
     # every sequence of k ops over {add, lookup latest, lookup oldest, sync, reopen-append[, lookup absent, reopen-read]}
     if ctx.tier == 'quick':
-        ex = short_sequences('ALOSP', 4, True) + short_sequences('ALOVP', 4, True, mem=True)
+        ex = short_sequences('ALOSP', 4, True) + short_sequences('ALOSVP', 4, True, mem=True)
     else:
-        ex = short_sequences('ALOSP', 5, True) + short_sequences('ALOVP', 5, True, mem=True)
+        ex = short_sequences('ALOSP', 5, True) + short_sequences('ALOSVP', 5, True, mem=True)
     ctx.extra['exhaustive_short_sequences'] = len(ex)
     hs += ex
     check_histories(ctx, hs, OP_CLASS['C08'], 'get_flight_refines_dict', nontrivial, tag=' (C08)')
